@@ -23,6 +23,21 @@ func (fr *Frame) call(in ssa.Instruction, c *ssa.CallCommon, st *State, pc Term)
 		return res
 	}
 	for _, cs := range fr.contract.CallSites {
+		if cs.Clause.Kind == "callset" && calleeMatches(cs.Callee, fr.lastCallee) && (cs.Ordinal == 0 || cs.Ordinal == fr.lastOrd) {
+			fr.csMatched[cs] = true
+			env := fr.specEnv(st, pc)
+			env.old = pre
+			vars := map[string]TV{}
+			sig := c.Signature()
+			for i, r := range res {
+				vars[fmt.Sprintf("result%d", i)] = TV{r, sig.Results().At(i).Type()}
+			}
+			if len(res) == 1 {
+				vars["result"] = TV{res[0], sig.Results().At(0).Type()}
+			}
+			fr.vc.ghostSet(env.with(vars), st, cs)
+			continue
+		}
 		if cs.Clause.Kind != "callassume" {
 			continue
 		}
@@ -48,6 +63,27 @@ func (fr *Frame) call(in ssa.Instruction, c *ssa.CallCommon, st *State, pc Term)
 		}
 	}
 	return res
+}
+
+// ghostSet executes a set clause: the scalar ghost named by cs.Target takes
+// the value of the clause's expression in env.
+func (vc *VC) ghostSet(env *Env, st *State, cs *CallSiteSpec) {
+	g := vc.specs.ghost(cs.Target)
+	if g == nil || g.IsMap {
+		vc.specError(cs.Clause, fmt.Errorf("set: %q is not a scalar ghost", cs.Target))
+		return
+	}
+	v, err := env.eval(cs.Clause.E)
+	if err != nil {
+		vc.specError(cs.Clause, err)
+		return
+	}
+	if v.T.Sort != g.sort() {
+		vc.specError(cs.Clause, fmt.Errorf("set: ghost %s has sort %s, expression has sort %s", g.Name, g.sort(), v.T.Sort))
+		return
+	}
+	vc.heap(st, g.heapName(), g.sort()) // registers the heap
+	st.heaps[g.heapName()] = vc.def("gs:"+g.Name, v.T)
 }
 
 func (fr *Frame) callInner(in ssa.Instruction, c *ssa.CallCommon, st *State, pc Term) []Term {
@@ -205,7 +241,7 @@ func (fr *Frame) callInner(in ssa.Instruction, c *ssa.CallCommon, st *State, pc 
 		// heaps the callee is known to write are havoced even when they are
 		// protected from unknown callees (private / immutable types)
 		for _, h := range eff.sorted() {
-			if vc.specs.isPrivateHeap(h) || vc.specs.isImmutableHeap(h) {
+			if vc.specs.isPrivateHeap(h) || vc.specs.isImmutableHeap(h) || vc.specs.isSetGhostHeap(h) {
 				vc.havocHeapKeepOld(st, preTop, h, pc)
 			}
 		}
@@ -536,7 +572,7 @@ func (fr *Frame) modularCall(fc *FuncContract, callee *ssa.Function, c *ssa.Call
 		if eff.top {
 			vc.havocAllHeaps(st)
 			for _, h := range eff.sorted() {
-				if vc.specs.isPrivateHeap(h) || vc.specs.isImmutableHeap(h) {
+				if vc.specs.isPrivateHeap(h) || vc.specs.isImmutableHeap(h) || vc.specs.isSetGhostHeap(h) {
 					vc.havocHeapKeepOld(st, pre, h, pc)
 				}
 			}
@@ -548,6 +584,13 @@ func (fr *Frame) modularCall(fc *FuncContract, callee *ssa.Function, c *ssa.Call
 		}
 	} else {
 		vc.havocAllHeaps(st)
+	}
+	// ghosts the callee assigns with set clauses change during the call
+	for _, n := range fc.setGhosts() {
+		if g := vc.specs.ghost(n); g != nil && !g.IsMap {
+			vc.heap(st, g.heapName(), g.sort())
+			vc.havocHeap(st, g.heapName())
+		}
 	}
 	if !fc.Pure {
 		if callee == nil || fr.mayRunLocalClosure(c) || fr.closures[c.Value] != nil {
